@@ -63,7 +63,7 @@ func runC05(p *Prog, r *Report) {
 			}
 			r.Check(len(ps) == 1 && ps.AllGuarded("recv.backtrace == nil"), R, rel+"/protostate-iff-nothing-pending", ps.Pos(p), "ErrProtoState iff backtrace == nil", "SendMsg with no request pending does not return ErrProtoState under backtrace == nil")
 			se := 0
-			for _, e := range sm.evs {
+			for _, e := range sm.All() {
 				if hasAtom(e.Guard, "recv.backtrace == nil") {
 					switch e.Kind {
 					case "store":
